@@ -41,6 +41,7 @@ var c19Extras = []struct{ name, text string }{
 }
 
 var rePos = regexp.MustCompile(`(caught \S+) \d+ \d+`)
+var rePosFields = regexp.MustCompile(`\b(line|column): \d+`)
 
 func c19Capture(what string, f func()) (panicClass string) {
 	defer func() {
@@ -96,7 +97,14 @@ func c19Oracle(text string, tags []string, r *Result) {
 		if hasTag(tags, "spawn") {
 			return x.Class == o0.Class && sortedLines(x.Out) == sortedLines(o0.Out)
 		}
-		return x.Key() == o0.Key()
+		if x.Key() == o0.Key() {
+			return true
+		}
+		// a caught exception printed as a whole (`println(e)`) shows its position as fields
+		if strings.Contains(o0.Out, "column: ") {
+			return x.Class == o0.Class && x.Kind == o0.Kind && rePosFields.ReplaceAllString(x.Out, "$1: N") == rePosFields.ReplaceAllString(o0.Out, "$1: N")
+		}
+		return false
 	}
 	check := func(stage, printed string) {
 		a1 := Analyze(c19Mods(printed), true)
